@@ -57,6 +57,53 @@ def index_patterns(body, k, limit=8):
     return pats[:limit]
 
 
+def find_offsets(body, k, limit=3):
+    """Offsets o such that the body reads some array at index k + o (o not mentioning k)."""
+    cache = {}
+    offs = {}
+    seen = set()
+    stack = [body]
+    while stack:
+        t = stack.pop()
+        if t.get_id() in seen:
+            continue
+        seen.add(t.get_id())
+        if z3.is_quantifier(t):
+            stack.append(t.body())
+            continue
+        if z3.is_select(t) and z3.is_add(t.arg(1)) and not _mentions(t.arg(0), k, cache):
+            ch = t.arg(1).children()
+            if sum(1 for c in ch if z3.eq(c, k)) == 1:
+                rest = [c for c in ch if not z3.eq(c, k)]
+                if rest and not any(_mentions(c, k, cache) for c in rest) and not any(_has_binder(c) for c in rest):
+                    o = rest[0] if len(rest) == 1 else z3.Sum(rest)
+                    offs[z3.simplify(o).sexpr()] = o
+        stack.extend(t.children())
+    return list(offs.values())[:limit]
+
+
+def _shifted(quant, eng, k, lo, hi, body, name, is_forall):
+    """Equivalent re-indexed copies (k' = k + o) of a quantifier whose body reads A[k + o]:
+    they are triggered by plain reads A[t] of the base array.  Only generated where slices are
+    in play (eng.shift_quantifiers), since the extra quantifiers slow unrelated proofs down."""
+    out = []
+    if not getattr(eng, "shift_quantifiers", False):
+        return out
+    try:
+        sb = z3.simplify(body)
+        for o in find_offsets(sb, k):
+            k2 = z3.Int(V.fresh_name(name + "s"))
+            body2 = z3.simplify(z3.substitute(sb, (k, k2 - o)))
+            pats2 = index_patterns(body2, k2)
+            if not pats2:
+                continue
+            rng = z3.And(k2 >= lo + o, k2 < hi + o)
+            out.append(_mk(quant, k2, z3.Implies(rng, body2) if is_forall else z3.And(rng, body2), pats2))
+    except z3.Z3Exception:
+        pass
+    return out
+
+
 def _mk(quant, k, f, pats):
     if pats:
         try:
@@ -79,6 +126,9 @@ def forall(eng, lo, hi, body_fn, name="q"):
         pats = index_patterns(body, k)
         f = z3.Implies(z3.And(k >= lo, k < hi), body)
         q = _mk(z3.ForAll, k, f, pats)
+        extra = _shifted(z3.ForAll, eng, k, lo, hi, body, name, True)
+        if extra:
+            q = z3.And([q] + extra)
         offs = getattr(eng, "reindex", None)
         if offs:
             # a callee clause about a slice argument xs[a:b]: also state it over the base
@@ -103,6 +153,9 @@ def exists(eng, lo, hi, body_fn, name="q"):
         pats = index_patterns(body, k)
         f = z3.And(k >= lo, k < hi, body)
         q = _mk(z3.Exists, k, f, pats)
+        extra = _shifted(z3.Exists, eng, k, lo, hi, body, name, False)
+        if extra:
+            q = z3.Or([q] + extra)
         offs = getattr(eng, "reindex", None)
         if offs:
             parts = [q]
